@@ -2,6 +2,7 @@
 degenerate."""
 import ast
 
+from sa.helpers import validated
 from sa.helpers import (the_return, mkflow, spec, code, one, calls, bind_call, param_env,
                         loop_matches, fmt, atom_of, unparse, unalloc, call_kw)
 from sa.index import AnalysisError
@@ -192,13 +193,26 @@ def switch_obligations(ix, R):
         fl = mkflow(ix, site)
         st = [e for e in fl.of('store') if fmt(fl, e.target) == 'self._opacity_cache']
         why = []
+        sel = []            # (polarity of _use_ktables, value stored)
+        use = code(fl, 'self._use_ktables')
         for e in st:
-            g = e.guards[-1] if e.guards else None
-            isk = 'KTableCache' in fmt(fl, e.value)
-            if g is None or not fl.tab.equal(g.rf, code(fl, 'self._use_ktables')) or g.positive != isk:
-                why.append(unparse(e.node))
-            if len(e.guards) != 1 or e.loops:
-                why.append('%s is under %s' % (unparse(e.node), [x.text() for x in e.guards]))
+            va = atom_of(fl, e.value)
+            gs = [x for x in e.guards if not validated(x)]
+            if va is not None and va.head == 'guard' and fl.tab.equal(va.args[0], use) and not gs:
+                sel += [(True, va.args[1]), (False, va.args[2])]      # K() if use else O()
+            elif len(gs) == 1 and gs[0].rf is not None and fl.tab.equal(gs[0].rf, use):
+                sel.append((gs[0].positive, e.value))
+            else:
+                why.append('%s is under %s' % (unparse(e.node), [x.text() for x in gs]))
+            if e.loops:
+                why.append('%s is inside a loop' % unparse(e.node))
+        for pol, v in sel:
+            isk = 'KTableCache' in fmt(fl, v)
+            iso = 'OpacityCache' in fmt(fl, v)
+            if (pol and not (isk and not iso)) or (not pol and not (iso and not isk)):
+                why.append('%s selected when _use_ktables is %s' % (fmt(fl, v), pol))
+        if sorted(p_ for p_, _ in sel) != [False, True]:
+            why.append('cache selected for _use_ktables in %s' % sorted(p_ for p_, _ in sel))
         uk = [e for e in fl.of('store') if fmt(fl, e.target) == 'self._use_ktables']
         if len(uk) != 1 or not fl.tab.equal(uk[0].value, spec(fl, "GlobalCache()['opacity_method'] == 'ktables'")) \
                 or uk[0].guards or uk[0].loops or (st and fl.events.index(uk[0]) > fl.events.index(st[0])):
@@ -222,7 +236,7 @@ def switch_obligations(ix, R):
                     t.guards[0].rf, spec(fl, '_and(self._use_ktables, self.weights is None)')):
                 why.append('self.weights is taken under %s' % [x.text() for x in t.guards])
         R.check('4.abs', 'DOM', site, 'prepare_each sets _use_ktables from the switch first, picks KTableCache iff it is set, resets the quadrature weights and takes them from the first k-table of the call',
-                len(st) == 2 and not why, key='; '.join(why) or 'stores %d' % len(st),
+                bool(st) and not why, key='; '.join(why) or 'stores %d' % len(st),
                 detail='; '.join(why), loc=f.loc())
 
 
